@@ -83,6 +83,10 @@ def run_one(chk, sseed, nrepos=1, directed=None):
         if directed == "flavour-drop":
             # the last update only withdraws something, byte for byte and date for date everything else stays: a release flavour
             # (InRelease, or Release.gpg), so that the final run transfers nothing at all - and still has to publish and clean
+            if sseed.endswith(("-0", "-1")):   # corpus: the state before the drop has every flavour, so there is one to withdraw
+                for r in versions[-1]:
+                    for cs in r["codenames"].values():
+                        cs["flavours"] = ["InRelease", "Release", "Release.gpg"]
             nv = copy.deepcopy(versions[-1])
             dropped = 0
             for r in nv:
@@ -107,6 +111,8 @@ def run_one(chk, sseed, nrepos=1, directed=None):
             cls = rng.choice(["none", "none", "transient", "persistent-required", "crash", "skip"])
             if directed == "kill-before-pool-utime" and hi == 0:
                 cls = "crash"
+            if directed == "flavour-drop" and hi == len(versions) - 2 and sseed.endswith(("-0", "-1")):
+                cls = "none"   # corpus: the mirror is up to date with the state right before the drop, the final run transfers nothing
             classes.append(cls)
             if cls == "skip":
                 continue
